@@ -547,7 +547,32 @@ fn oracle_inputflag(lines: &[String]) -> String {
     "ok".into()
 }
 
+/// One oracle evaluation, guarded against hangs: an `execute(n)` that does not come back (the
+/// interpreter spinning inside one slice) would otherwise stall the whole layer.  The evaluation runs
+/// on its own thread; after 60 s it is abandoned (the thread keeps spinning until the process ends)
+/// and the case is reported as a failure.
 pub fn answer_find(req: &str) -> String {
+    use std::sync::atomic::{AtomicUsize, Ordering};
+    static HANGS: AtomicUsize = AtomicUsize::new(0);
+    if HANGS.load(Ordering::Relaxed) >= 3 {
+        // every abandoned evaluation keeps a core busy: three witnesses are enough
+        return fail("not evaluated: three earlier cases of this run did not come back".into());
+    }
+    let (tx, rx) = std::sync::mpsc::channel();
+    let r = req.to_string();
+    std::thread::spawn(move || {
+        let _ = tx.send(answer_find_unguarded(&r));
+    });
+    match rx.recv_timeout(std::time::Duration::from_secs(60)) {
+        Ok(a) => a,
+        Err(_) => {
+            HANGS.fetch_add(1, Ordering::Relaxed);
+            fail("the interpreter did not come back within 60 s: a bounded execute(n) slice does not return (or the oracle's own budget is unbounded)".into())
+        }
+    }
+}
+
+fn answer_find_unguarded(req: &str) -> String {
     let parts: Vec<&str> = req.split(' ').collect();
     if parts.len() < 4 {
         return "bad-request".into();
@@ -1158,6 +1183,14 @@ pub fn gen_c10<W: Write>(w: &mut W, tier: &str, seed: u64) {
         (vec!["10 DEF FNA(X,Y,Z)=X+Y+Z", "20 PRINT FNA(1,2,3,4,5)"], "?ILLEGAL FUNCTION CALL IN 20; WRONG NUMBER OF ARGUMENTS\nREADY.\n"),
         (vec!["10 DEF FNA(X)=X+1", "20 DEF FNB(X)=FNA(X,X)*2", "30 PRINT 100+FNB(4)"], "?ILLEGAL FUNCTION CALL IN 20; WRONG NUMBER OF ARGUMENTS\nREADY.\n"),
         (vec!["10 DEF FNA$(X$)=X$+\"!\"", "20 PRINT FNA$(\"a\",\"b\")"], "?ILLEGAL FUNCTION CALL IN 20; WRONG NUMBER OF ARGUMENTS\nREADY.\n"),
+        // a function that calls another keeps its own parameter: same parameter name, function names that differ
+        // only in their type suffix, the parameter read again after the nested call
+        (vec!["10 DEF FNB(X)=X*2", "20 DEF FNC$(X)=STR$(FNB(X+1))+STR$(X)", "30 PRINT FNC$(3)"], " 8 3\nREADY.\n"),
+        (vec!["10 DEF FNA(X)=X*2", "20 DEF FNA$(X)=STR$(FNA(X+1))+STR$(X)", "30 X=100:PRINT FNA$(3);X"], " 8 3 100 \nREADY.\n"),
+        (vec!["10 DEF FNS(N)=N*N", "20 DEF FNS%(N)=FNS(N+1)-N", "30 PRINT FNS%(4);FNS(FNS%(1))"], " 21  9 \nREADY.\n"),
+        (vec!["10 DEF FNA!(X)=X+1", "20 DEF FNA#(X)=FNA!(X*10)+X", "30 DEF FNA%(X)=FNA#(X+1)*100+X", "40 PRINT FNA%(1)"], " 2301 \nREADY.\n"),
+        (vec!["10 DEF FNA(X)=X+1", "20 DEF FNAA(X)=FNA(X*2)+X", "30 PRINT FNAA(5)"], " 16 \nREADY.\n"),
+        (vec!["10 DEF FNP(A,B)=A-B", "20 DEF FNP$(A,B)=STR$(FNP(B,A))+STR$(A)+STR$(B)", "30 PRINT FNP$(1,5)"], " 4 1 5\nREADY.\n"),
         (vec!["10 PRINT FNQ(1)"], "?UNDEFINED USER FUNCTION IN 10\nREADY.\n"),
         (vec!["10 DEF FNA(X)=FNB(X)*2", "20 DEF FNB(X)=X+1", "30 PRINT FNA(3)"], " 8 \nREADY.\n"),
         (vec!["10 A=5", "20 DEF FNA(X)=X+A", "30 A=10", "40 PRINT FNA(1)"], " 11 \nREADY.\n"),
